@@ -835,7 +835,30 @@ def rad_facts():
     return out
 
 
+def assigned_names(node):
+    """names of variables assigned somewhere inside an AST subtree (=, compound assignment, overloaded +=, ++/--)"""
+    out = set()
+    for n in walk(node):
+        k = n.get('kind')
+        tgt = None
+        if k in ('BinaryOperator', 'CompoundAssignOperator') and n.get('opcode', '').endswith('=') and n.get('opcode') not in ('==', '!=', '<=', '>='):
+            tgt = n['inner'][0]
+        elif k == 'CXXOperatorCallExpr' and len(n.get('inner', [])) == 3:
+            cal = n['inner'][0]
+            while cal.get('kind') in TRANSPARENT:
+                cal = cal['inner'][0]
+            if cal.get('kind') == 'DeclRefExpr' and cal['referencedDecl']['name'] in ('operator=', 'operator+=', 'operator-=', 'operator*=', 'operator/='):
+                tgt = n['inner'][1]
+        elif k == 'UnaryOperator' and n.get('opcode') in ('++', '--'):
+            tgt = n['inner'][0]
+        while tgt is not None and tgt.get('kind') in TRANSPARENT:
+            tgt = tgt['inner'][0]
+        if tgt is not None and tgt.get('kind') == 'DeclRefExpr':
+            out.add(tgt['referencedDecl']['name'])
+    return out
 class Paths:
+
+
     """replay-based depth-first exploration of symbolic decisions; infeasible sides are pruned with z3"""
 
     def __init__(s, budget=4096, timeout_ms=5000):
